@@ -206,13 +206,42 @@ Definition log := list lent.
 
 Definition confirmed (c : ccfg) (e : event) : bool := c_minconf c <=? ev_conf e.
 
-(* has a sufficiently confirmed event with this identity been delivered since the last restart? *)
+(* now is within the lockout window that started at t0 (a window <= 0 never closes) *)
+Definition within (c : ccfg) (t0 now : Z) : bool := (c_window c <=? 0) || (now <=? t0 + c_window c).
+
+(* touch w l: the time of the most recent thing that can have (re)written the record of w --
+   the last successful acceptance since the last restart or a sufficiently confirmed event for w
+   delivered after it; None when nothing was accepted since the last restart. *)
+Fixpoint touch (c : ccfg) (w : N) (l : log) : option Z :=
+  match l with
+  | [] => None
+  | LRestart :: _ => None
+  | LAcc t w' _ r :: l' => if (w' =? w)%N && r then Some t else touch c w l'
+  | LEv t e :: l' =>
+    match touch c w l' with
+    | None => None
+    | Some t0 => if (ev_w e =? w)%N && confirmed c e then Some t else Some t0
+    end
+  end.
+
+(* the node certainly holds no record for w at time t: never accepted since the last restart, or
+   the window of the last possible write has closed *)
+Definition absent (c : ccfg) (l : log) (t : Z) (w : N) : bool :=
+  match touch c w l with
+  | None => true
+  | Some t0 => (0 <? c_window c) && (t0 + c_window c <? t)
+  end.
+
+(* Has a sufficiently confirmed event with this identity been seen since the last restart?  A
+   delivery that arrived while the node certainly held no record for the work id (before the
+   report was accepted, or after the window closed) does not count: such an event concerns no
+   report the node is waiting for, and every later poll that still returns it is a sighting again. *)
 Fixpoint delivered (c : ccfg) (id : vid) (l : log) : bool :=
   match l with
   | [] => false
   | LRestart :: _ => false
   | LAcc _ _ _ _ :: l' => delivered c id l'
-  | LEv _ e :: l' => (confirmed c e && vid_eqb (ev_id e) id) || delivered c id l'
+  | LEv t e :: l' => (confirmed c e && vid_eqb (ev_id e) id && negb (absent c l' t (ev_w e))) || delivered c id l'
   end.
 
 (* a delivery: time, event, and whether it was the first delivery of that identity *)
@@ -238,9 +267,6 @@ Fixpoint scan (c : ccfg) (w : N) (l : log) : option (Z * N * list deliv) :=
       else Some (tj, b, D)
     end
   end.
-
-(* now is within the lockout window that started at t0 (a window <= 0 never closes) *)
-Definition within (c : ccfg) (t0 now : Z) : bool := (c_window c <=? 0) || (now <=? t0 + c_window c).
 
 Definition dlow (b : N) (D : list deliv) : bool := forallb (fun d => (ev_check (d_ev d) <? b)%N) D.
 Definition nonew (b : N) (D : list deliv) : bool :=
